@@ -6,8 +6,12 @@
    (Section hypotheses H_burn_total, H_pg_total, H_subtree_total, H_dp_total, H_prg_total, H_relabel_good - the
    subject of C01/C04/C07/C08, visible below as premises), the chain driver is total for every
    (burnin, num_iters, thin >= 1, sweep counts, update flag, wall-clock behaviour, generator state) and records
-   exactly the iterations 0, then i = 0 (mod thin).  The two places where the pinned kernels are NOT total on valid
-   input are modelled at index level and refuted. *)
+   exactly the iterations 0, then i = 0 (mod thin).  The two places where the kernels of the pinned commit (30a152a)
+   were NOT total on valid input are modelled at index level, parameterised by the flag `fixed` (false = pinned code,
+   true = after the fix commits fb970cc / c51a714 of /repo), and the pinned variants are refuted.  Which variant the
+   working tree implements is observed by the harness (correspondence), not assumed.  A third defect found by the
+   search (Gamma(0.01) draw underflowing to alpha = 0.0 on a tree without clones, fixed in 322b9c9) is a floating-point
+   event outside this model. *)
 From PV Require Import Model.RunDriver Proofs.RunDriverProofs.
 Open Scope nat_scope.
 
